@@ -332,7 +332,12 @@ impl<K: CacheKey + 'static> DiskCache<K> {
     }
 
     /// Write data to disk file atomically
-    async fn write_file(&self, path: &Path, data: &Bytes) -> CacheResult<()> {
+    async fn write_file(
+        &self,
+        path: &Path,
+        data: &Bytes,
+        expires_at: Option<SystemTime>,
+    ) -> CacheResult<()> {
         let _permit = self
             .io_semaphore
             .acquire()
@@ -372,6 +377,13 @@ impl<K: CacheKey + 'static> DiskCache<K> {
             file.write_all(data).map_err(CacheError::Io)?;
             #[cfg(feature = "verif-hooks")] crate::verif_hooks::crash_point("disk.write.after_write", Some(&temp_path));
             file.flush().map_err(CacheError::Io)?;
+
+            // The index lives in memory only. The file carries its expiry as its
+            // modification time, so that an instance that finds it on disk later
+            // knows until when it may be served.
+            if let Some(expires_at) = expires_at {
+                file.set_modified(expires_at).map_err(CacheError::Io)?;
+            }
             #[cfg(feature = "verif-hooks")] crate::verif_hooks::crash_point("disk.write.after_flush", Some(&temp_path));
 
             // Force data to disk for durability in cache operations
@@ -579,7 +591,11 @@ impl<K: CacheKey + 'static> AsyncCache<K> for DiskCache<K> {
         } else {
             // Not in index - try to find file on disk as fallback
             let file_path = self.get_file_path(key)?;
-            if file_path.exists() {
+            // The file's modification time is the expiry its writer stamped it with
+            let expires_at = fs::metadata(&file_path)
+                .and_then(|metadata| metadata.modified())
+                .ok();
+            if expires_at.is_some_and(|expires| SystemTime::now() < expires) {
                 #[cfg(feature = "verif-hooks")] crate::verif_hooks::sched_point("disk.get.fallback-file-exists");
                 // Found file on disk - try to read it and add to index
                 match self.read_file(&file_path).await {
@@ -593,7 +609,7 @@ impl<K: CacheKey + 'static> AsyncCache<K> for DiskCache<K> {
                             file_path: file_path.clone(),
                             size_bytes,
                             created_at: created,
-                            expires_at: None, // Can't determine TTL from existing file
+                            expires_at,
                             last_accessed: SystemTime::now(),
                             access_count: 1,
                         };
@@ -617,6 +633,9 @@ impl<K: CacheKey + 'static> AsyncCache<K> for DiskCache<K> {
                         // File exists but couldn't read - ignore and fall through to miss
                     }
                 }
+            } else if expires_at.is_some() {
+                // Expired: delete the file, as for an expired entry of the index
+                let _ = fs::remove_file(&file_path);
             }
 
             self.metrics.record_get(false, start_time.elapsed());
@@ -637,7 +656,8 @@ impl<K: CacheKey + 'static> AsyncCache<K> for DiskCache<K> {
         let file_path = self.get_file_path(&key)?;
 
         // Write data to disk
-        self.write_file(&file_path, &value).await?;
+        let expires_at = SystemTime::now().checked_add(ttl);
+        self.write_file(&file_path, &value, expires_at).await?;
         #[cfg(feature = "verif-hooks")] crate::verif_hooks::sched_point("disk.put_with_ttl.file-written");
 
         // Update index
